@@ -10,6 +10,7 @@ import (
 	"sort"
 	"strings"
 	"sync"
+	"sync/atomic"
 	"time"
 
 	"github.com/tonistiigi/fsutil"
@@ -38,10 +39,11 @@ type c13Case struct {
 	DirC   bool          `json:"dirc"` // CopyDirContents
 	Opts   c13Opts       `json:"opts"`
 	Single *fsmodel.Node `json:"single,omitempty"`
+	Wild   bool          `json:"wild,omitempty"` // Src is a wildcard pattern (AllowWildcards)
 }
 
 func (c c13Case) String() string {
-	return fmt.Sprintf("tree=%s src=%q dst=%q dircontents=%v opts=%+v", c.Tree, c.Src, c.Dst, c.DirC, c.Opts)
+	return fmt.Sprintf("tree=%s src=%q dst=%q dircontents=%v opts=%+v wildcards=%v", c.Tree, c.Src, c.Dst, c.DirC, c.Opts, c.Wild)
 }
 
 var c13Time = time.Unix(1_234_567_890, 123_456_789)
@@ -201,6 +203,14 @@ func judgeC13(c c13Case) (string, string) {
 	switch {
 	case c.Single != nil:
 		tree = fsmodel.Tree{*c.Single}
+	case c.Tree == "xfail":
+		// the destination is on another file system, which refuses the large attribute value
+		tree = xfailTree()
+		dstDir = scratch.DiskDir("cp13")
+		if dstDir == "" || !refusesBigXattr(dstDir) {
+			return "skipped", ""
+		}
+		defer scratch.Remove(dstDir)
 	default:
 		tree = richTree()
 	}
@@ -213,7 +223,7 @@ func judgeC13(c c13Case) (string, string) {
 	}
 	var mu sync.Mutex
 	notes := map[string]int{}
-	ci := fscopy.CopyInfo{CopyDirContents: c.DirC, FollowLinks: c.Opts.Follow, ModeStr: c.Opts.ModeStr,
+	ci := fscopy.CopyInfo{CopyDirContents: c.DirC, FollowLinks: c.Opts.Follow, ModeStr: c.Opts.ModeStr, AllowWildcards: c.Wild,
 		ChangeFunc: func(k fsutil.ChangeKind, p string, fi os.FileInfo, err error) error {
 			mu.Lock()
 			if fi != nil && !fi.IsDir() {
@@ -243,7 +253,25 @@ func judgeC13(c c13Case) (string, string) {
 	if err != nil {
 		return "infra", err.Error()
 	}
-	ex := expectCopy(srcSnap, c)
+	ec := c
+	if c.Wild {
+		// a wildcard copy into an existing directory is the union of its matches: what a directory-contents copy
+		// of the pattern's directory yields
+		ec.Src, ec.DirC = path.Dir(c.Src), true
+		if ec.Src == "." {
+			ec.Src = "/"
+		}
+	}
+	ex := expectCopy(srcSnap, ec)
+	if c.Tree == "xfail" {
+		for i := range ex.tree {
+			for k, v := range ex.tree[i].Xattrs {
+				if len(v) >= bigXattr {
+					delete(ex.tree[i].Xattrs, k) // refused by the destination, tolerated by the handler
+				}
+			}
+		}
+	}
 	created := map[string]bool{}
 	for _, d := range ex.created {
 		created[d] = true
@@ -304,6 +332,31 @@ func judgeC13(c c13Case) (string, string) {
 	return "", ""
 }
 
+const bigXattr = 8000
+
+// xfailTree: one entry whose only attribute is too large for the destination, before and next to entries that
+// carry small values under the same and under other names.
+func xfailTree() fsmodel.Tree {
+	f := func(p string, x map[string]string) fsmodel.Node {
+		return fsmodel.Node{Path: p, Kind: fsmodel.File, Perm: 0644, Mtime: fsmodel.T0 + int64(len(p)), Data: []byte(p), Xattrs: x}
+	}
+	big := strings.Repeat("B", bigXattr)
+	t := fsmodel.Tree{f("a", map[string]string{"user.k": big}), f("b", map[string]string{"user.k": "small", "user.o": "o"}),
+		{Path: "d", Kind: fsmodel.Dir, Perm: 0755, Mtime: fsmodel.T0, Xattrs: map[string]string{"user.k": "dir"}}, f("d/c", map[string]string{"user.k": "c"}),
+		f("d/e", map[string]string{"user.k": big}), f("z", map[string]string{"user.k": "z", "user.z": "zz"})}
+	t.Sort()
+	return t
+}
+
+func refusesBigXattr(dir string) bool {
+	p := filepath.Join(dir, ".probe")
+	if err := os.WriteFile(p, nil, 0600); err != nil {
+		return false
+	}
+	defer os.Remove(p)
+	return fsmodel.SetXattr(p, "user.k", strings.Repeat("B", bigXattr)) != nil && fsmodel.SetXattr(p, "user.k", "small") == nil
+}
+
 func c13OptSets(tier string) []c13Opts {
 	var out []c13Opts
 	for _, chown := range []bool{false, true} {
@@ -350,11 +403,28 @@ func runC13(r *evid.Run) {
 			}
 		}
 	}
+	// wildcard sources: hard-link groups reach across matches
+	for _, o := range []c13Opts{{}, {Chown: true, Utime: true}, {Mode: 0640}, {AllowX: true}} {
+		for _, pat := range []string{"*", "?*", "d/*", "[a-z]*"} {
+			cases = append(cases, c13Case{Tree: "rich", Src: pat, Dst: "/", Opts: o, Wild: true})
+		}
+	}
+	// a tolerant xattr error handler and a destination that refuses one attribute value
+	for _, o := range []c13Opts{{AllowX: true}, {AllowX: true, Chown: true, Utime: true}} {
+		cases = append(cases, c13Case{Tree: "xfail", Src: "/", Dst: "/", DirC: true, Opts: o}, c13Case{Tree: "xfail", Src: "/", Dst: "new", DirC: true, Opts: o},
+			c13Case{Tree: "xfail", Src: "*", Dst: "/", Opts: o, Wild: true})
+	}
 	r.Set("cases", len(cases))
 	r.Set("option_sets", len(opts))
+	var skipped atomic.Int64
+	defer func() { r.Set("cases_skipped_no_second_filesystem", skipped.Load()) }()
 	par.Do(len(cases), par.Workers(), func(i int) {
 		c := cases[i]
 		key, msg := judgeC13(c)
+		if key == "skipped" {
+			skipped.Add(1)
+			return
+		}
 		r.Evaluations.Add(1)
 		r.StateH(evid.H(c.String() + fmt.Sprint(c.Single)))
 		r.Nontrivial(c.String() + fmt.Sprint(c.Single))
